@@ -271,6 +271,8 @@ def vedit_handle(line):
     from paulie.application.graph_complexity import average_graph_complexity
     try:
         _, gs, v, w, eds = line.split(" ")
+        import random as _rnd
+        r_ = _rnd.Random("vedit:" + line)
         pollute.pollute(len(v), line, I.strs(gs))
         c = IC.mk(I.strs(gs))
         cur = IC.names(c)
@@ -278,6 +280,12 @@ def vedit_handle(line):
         seen = set()
         def observe(when):
             sv, sw = str(V), str(W)
+            # unfinished traversals of the collection and of the operands (a `break`, a membership test): cursors left inside
+            for obj in (c, V, W):
+                if r_.random() < 0.5:
+                    it = iter(obj); next(it, None)
+                    if r_.random() < 0.5:
+                        next(it, None)
             dist = I.orbit_dist(cur, sv)
             sz = len(dist)
             a = sum(1 for x in dist if O.anti(O.enc(sw), x))
